@@ -1,0 +1,30 @@
+//go:build verif
+
+// Contracts for package hotstuff, checked by /verif/govc (comment-only file; the
+// build tag keeps it out of ordinary builds). See /verif/DESIGN.md.
+package hotstuff
+
+//@ pure func F(n int) int = (n - 1) / 3
+//@ pure func Q(n int) int = (n + F(n) + 2) / 2
+
+//@ func NumFaulty property C20
+//@   requires 0 <= n
+//@   ensures [def] result == F(n)
+//@   ensures [max] n >= 1 ==> 3*result < n && 3*(result+1) >= n
+
+// QuorumSize is checked with exact IEEE-754 semantics (mode bv64fp): the code computes
+// int(math.Ceil(float64(n+f+1) / 2.0)); the contract says this equals the integer spec
+// function Q(n) for every n up to 2^32 (a configuration is a map keyed by uint32 ids).
+//@ func QuorumSize property C20
+//@   mode bv64fp
+//@   requires 0 <= n && n <= 4294967296
+//@   cases n == 0; k in 0..32 :: pow2(k) <= n && n < pow2(k+1)
+//@   ensures [spec] result == Q(n)
+
+// The three clauses of the property, over the spec function (mathematical integers).
+//@ lemma quorum_props(n int) property C20
+//@   requires 1 <= n
+//@   ensures [intersection] 2*Q(n) - n >= F(n) + 1
+//@   ensures [availability] Q(n) <= n - F(n)
+//@   ensures [minimal] 2*(Q(n)-1) - n < F(n) + 1
+//@   ensures [f-max] 3*F(n) < n && 3*(F(n)+1) >= n
